@@ -121,6 +121,35 @@ def block_imag(ctx, tm, psi, as_mpdm=False):
         if not err <= 1e-5:
             run.violation(f"{nm}:imag-time:accuracy", replay_base(tm, v0, spec, T=T, steps=N, error=err, mpdm=as_mpdm))
 
+    # --- gauge independence of the mean-field schemes WITHOUT overlap matrices (force_ovlp=False): the same vector handed over
+    #      left-canonical and with a non-unitary (diagonal) gauge on one bond, at a bond dimension below the exact one
+    if not as_mpdm and len(psi) >= 3 and rng.random() < 0.7:
+        try:
+            small = psi.copy()
+            small.compress_config = CompressConfig(CompressCriteria.fixed, max_bonddim=max(2, fullbond - 1))
+            small = small.canonicalise().compress()
+            small.ensure_left_canonical()
+            gauged = small.copy()
+            kb = int(rng.integers(1, len(gauged)))                      # bond between sites kb-1 and kb
+            dbond = gauged[kb].shape[0]
+            g = np.exp(rng.uniform(-0.7, 0.7, size=dbond))
+            gauged[kb - 1] = np.asarray(gauged[kb - 1].array) * g.reshape((1,) * (gauged[kb - 1].ndim - 1) + (dbond,))
+            gauged[kb] = np.asarray(gauged[kb].array) * (1.0 / g).reshape((dbond,) + (1,) * (gauged[kb].ndim - 1))
+            same_vec = float(np.linalg.norm(dense_state(gauged) - dense_state(small)))
+            spec = dict(kind=str(rng.choice(["vmf", "muvmf"])), force_ovlp=False, ivp_rtol=1e-8, ivp_atol=1e-10)
+            nm = name_of(spec)
+            mm = int(max(small.bond_dims))
+            o1 = evolve_n(small, mpo, T, 1, spec, mm, normalize=True, imag=True)
+            o2 = evolve_n(gauged, mpo, T, 1, spec, mm, normalize=True, imag=True)
+            d12 = float(np.linalg.norm(dense_state(o1) - dense_state(o2)))
+            run.count(f"imag:gauge-independence:{nm}")
+            if same_vec <= 1e-12 * max(1.0, float(np.linalg.norm(dense_state(small)))) and d12 > 1e-5:
+                run.violation(f"{nm}:imag-time:result-depends-on-gauge",
+                              replay_base(tm, dense_state(small), spec, T=T, bond=kb, gauge=g.tolist(), difference=d12,
+                                          to_right=bool(small.to_right), bond_dims=[int(b) for b in small.bond_dims]))
+        except Exception as e:  # noqa
+            run.count(f"imag:gauge-independence:rejected:{type(e).__name__}")
+
     # --- adaptive
     rtol = float(10 ** rng.uniform(-6, -4))
     Ta = float(rng.uniform(1.0, 2.0)) / nh
@@ -297,7 +326,11 @@ def block_thermal_exact(ctx, ht):
                 # the same job continued by a second call with ANOTHER step: how beta is split into calls must not matter
                 n2 = int(rng.integers(1, 4))
                 dt2 = (beta / 2 / nsteps) * float(rng.choice([0.25, 0.5, 2.0, 3.0]))
-                tp.evolve(evolve_dt=-1j * dt2, nsteps=n2)
+                if rng.random() < 0.5:
+                    tp.evolve(evolve_dt=-1j * dt2, nsteps=n2)
+                else:       # the documented alternative: number of steps and the duration of THIS call
+                    tp.evolve(nsteps=n2, evolve_time=-1j * dt2 * n2)
+                    run.count("thermal-exact:second-call:nsteps+evolve_time")
                 taus += [taus[-1] + dt2 * (k + 1) for k in range(n2)]
                 run.count("thermal-exact:second-call-with-another-step")
         except Exception as e:
@@ -308,6 +341,10 @@ def block_thermal_exact(ctx, ht):
         worst = 0.0
         if len(tp.energies) != len(taus):
             run.violation(f"ThermalProp:exact:{space}:observable-count", dict(model=ht.describe(), got=len(tp.energies), expected=len(taus)))
+            continue
+        rec_t = np.array([-complex(t).imag for t in tp.evolve_times])
+        if rec_t.shape != (len(taus),) or np.max(np.abs(rec_t - np.array(taus))) > 1e-12 * max(1.0, taus[-1]):
+            run.violation(f"ThermalProp:exact:{space}:recorded-imaginary-times", dict(model=ht.describe(), recorded=rec_t.tolist(), expected=taus))
             continue
         for k, tau_k in enumerate(taus):
             r = scipy.linalg.expm(-tau_k * Hloc) @ D0
